@@ -397,7 +397,8 @@ theorem step_cow (K : CfgOK pf cfg) (I : CollInv pf cfg c xs) (z : H) (h : Heap 
     simp only [mstep, sstep, hg, List.getElem?_eq_none (Nat.le_of_not_lt hi)]
     exact ⟨rfl, xs, I, rfl, rfl, rfl⟩
 
-theorem step_bulk (I : CollInv pf cfg c xs) (z : H) (h : Heap H) (kvs : List (Nat × T)) :
+theorem step_bulk (K : CfgOK pf cfg) (I : CollInv pf cfg c xs) (z : H) (h : Heap H)
+    (kvs : List (Nat × T)) :
     Agrees pf cfg c.kind (mstep pf z cfg (c, h) (.bulk kvs))
       (sstep cfg.N c.kind (Coll.view xs c, c.hasPending) (.bulk kvs)) := by
   cases hk : c.kind with
@@ -409,7 +410,8 @@ theorem step_bulk (I : CollInv pf cfg c xs) (z : H) (h : Heap H) (kvs : List (Na
     have hsome : ∀ k, ((bulkMap cfg.map kvs).get k).isSome ↔ ∃ v, (k, v) ∈ plainAssoc kvs := by
       intro k; rw [UMap.get_isSome_iff, hent]
     simp only [mstep, sstep, hk, plainBulk]
-    rcases C15_bulkUpdate_total I (bulkMap cfg.map kvs) hkind hwf hx with
+    rcases C15_bulkUpdate_total I (bulkMap cfg.map kvs) hkind hwf hx
+      (Nat.lt_of_le_of_lt K.le (by decide)) with
       ⟨hp, hb⟩ | ⟨hp, ⟨k, hk1, hk2⟩, hb⟩ | ⟨hp, hkeys, k, nx, hgap, hb⟩ | ⟨hp, hkeys, hgap, c', hb, I', hv⟩
     · simp only [hb, hp, if_true]
       exact ⟨rfl, xs, I, rfl, hp, hk⟩
@@ -502,7 +504,7 @@ theorem step_refines (K : CfgOK pf cfg) (I : CollInv pf cfg c xs) (z : H) (h : H
   | push x => exact step_push I z h x
   | getMut i x => exact step_getMut K I z h i x
   | cow i act => exact step_cow K I z h i act
-  | bulk kvs => exact step_bulk I z h kvs
+  | bulk kvs => exact step_bulk K I z h kvs
   | apply => exact step_apply K I z h
   | len => exact step_read K I z h _ trivial
   | isEmpty => exact step_read K I z h _ trivial
